@@ -173,6 +173,9 @@ func (g *gen) intBinary(t *Type, depth int) Expr {
 			if xt.K != TScalar {
 				m = &Construct{T: xt, Args: []Expr{m}}
 			}
+			if g.overrideFoldHazard(x) {
+				return x
+			}
 			return &Binary{Op: "&", L: x, R: m, T: xt}
 		}
 		b.L, b.R = mask(b.L, lt), mask(b.R, rt)
@@ -964,7 +967,7 @@ func (g *gen) aggExpr(t *Type, depth int) Expr {
 // the target leaves % with a negative operand undefined (known finding
 // C05-13), so that auxiliary "x % literal" forms do not throw the case away.
 func (g *gen) nonNegForRem(x Expr, xt *Type) Expr {
-	if xt.S != I32 || !g.f.off("rem.negative") || !g.chance(85, "remnn2") {
+	if xt.S != I32 || !g.f.off("rem.negative") || !g.chance(85, "remnn2") || g.overrideFoldHazard(x) {
 		return x
 	}
 	var m Expr = &Lit{T: TI32, Bits: 0x7fffffff}
@@ -972,4 +975,11 @@ func (g *gen) nonNegForRem(x Expr, xt *Type) Expr {
 		m = &Construct{T: xt, Args: []Expr{m}}
 	}
 	return &Binary{Op: "&", L: x, R: m, T: xt}
+}
+
+// overrideFoldHazard reports whether wrapping x in an operator other than
+// + - * / would create an override-expression that ir.ProcessOverrides folds
+// with its four-operator float evaluator (open finding C14-3).
+func (g *gen) overrideFoldHazard(x Expr) bool {
+	return g.f.Overrides && g.inConst == 0 && IsOverrideExpr(x) && !IsConstExpr(x) && g.f.off("override.fold.unsupported-op")
 }
